@@ -64,6 +64,7 @@ def worker_env(run_dir: pathlib.Path) -> dict[str, str]:
     env["PYTHONDONTWRITEBYTECODE"] = "1"
     env[GUARD] = "1"
     env["VERIF_REPO_ROOT"] = str(REPO)
+    env["VERIF_RUN_DIR"] = str(run_dir)
     # interpreter flags of the caller must not change what the monitors do (-O would switch off icontract
     # and the library's own assertions)
     for k in ("PYTHONSTARTUP", "PYTHONOPTIMIZE", "PYTHONINSPECT", "PYTHONWARNINGS", "PYTHONDEBUG", "PYTHONVERBOSE"):
